@@ -49,6 +49,8 @@ def valuecount(table, field, value, missing=None):
         total += 1
         if v == value:
             vs += 1
+    if total == 0:
+        return vs, 0.  # no rows, avoid division by zero
     return vs, float(vs)/total
 
 
